@@ -246,6 +246,12 @@ type KnownFinding struct {
 	Sig      string `json:"sig"`
 	What     string `json:"what"`
 	Witness  string `json:"witness,omitempty"`
+	// WitnessCase names a (seed, tier, case) that reproduces the finding; it is re-executed on
+	// every run of the check so that the finding is re-observed, not just remembered.
+	WitnessSeed int64  `json:"witness_seed,omitempty"`
+	WitnessTier string `json:"witness_tier,omitempty"`
+	WitnessCase *int   `json:"witness_case,omitempty"`
+	WhyNotFixed string `json:"why_not_fixed,omitempty"`
 }
 
 type KnownFile struct {
@@ -457,6 +463,22 @@ func ParentMain(o Options) int {
 	}
 
 	known := LoadKnown(filepath.Join(o.VerifDir, "known_findings.json"))
+	// re-observe the witnesses of the listed findings of this property
+	for _, k := range known.Findings {
+		if k.Property != o.Prop || k.WitnessCase == nil {
+			continue
+		}
+		tmp := filepath.Join(work, "witness")
+		_ = os.MkdirAll(tmp, 0o755)
+		old := os.Getenv("TMPDIR")
+		os.Setenv("TMPDIR", tmp)
+		r := RunCase(ch, k.WitnessSeed, k.WitnessTier, *k.WitnessCase, false, tmp)
+		os.Setenv("TMPDIR", old)
+		obs["known_finding_witnesses_replayed"]++
+		for _, v := range r.Violations {
+			found = append(found, FoundViolation{Case: *k.WitnessCase, Violation: v})
+		}
+	}
 	knownHit := map[int]int{}
 	var real []FoundViolation
 	for _, v := range found {
